@@ -103,7 +103,8 @@ Qed.
 Lemma parse_item_suffixed s ii e rx (q : option string) dr : rxn_ok rx →
   parse_item s (of_chars (line_chars ii e rx)) q dr true true = add_from_str s (of_chars (line_chars ii e rx)) None true.
 Proof.
-  intros Hok. unfold parse_item. destruct q; [|done]. cbn [andb]. by rewrite to_of_chars, line_has_rule_suffix.
+  intros Hok. unfold parse_item. destruct q; [|by rewrite (rule_or_default_line ii e rx dr Hok)].
+  cbn [andb]. by rewrite to_of_chars, line_has_rule_suffix.
 Qed.
 
 (** * round trips through parse_rxns with explicit rules *)
@@ -174,3 +175,15 @@ Definition ex_items_explicit_wins : net :=
   (parse_items empty_net [("A >> B | rule=S", Some "X")] "r" true false).1.
 Example ex_explicit_rule_wins : bool_decide (species ex_items_explicit_wins = {[ "A"; "B | rule=S" ]}) = true.
 Proof. by vm_compute. Qed.
+
+(** * (round 5, after the repo fix) the default rule of parse_rxns: a line WITHOUT a rule suffix gets [default_rule] also when
+      suffix parsing is on (before the fix it got add_rxn's "r"); a line with a rule suffix keeps its own rule *)
+Lemma parse_rxns_one s line dr pf :
+  parse_rxns s [line] dr true pf
+  = add_from_str s line (match suffix_rule line with Some _ => None | None => Some dr end) true.
+Proof. done. Qed.
+Definition ex_dr_net : net := (rxns_to_hypergraph ["A+B>>C | rule=R1"; "2A>>D"; "C>>A | id=3"; "X >> Y | id=3 rule=Q"] "R0" true false).1.
+Example ex_default_rule :
+  suffix_rule "2A>>D" = None ∧ suffix_rule "C>>A | id=3" = None ∧ is_Some (suffix_rule "X >> Y | id=3 rule=Q") ∧
+  ((λ p : string * rxn, (p.1, r_rule p.2)) <$> edge_seq ex_dr_net) = [("R1_1", "R1"); ("R0_1", "R0"); ("R0_2", "R0"); ("Q_1", "Q")].
+Proof. split_and!; try (by vm_compute). vm_compute. eauto. Qed.
